@@ -117,7 +117,7 @@ def run(ctx):
     ccases = [{"id": "conc%d" % i, "nodes": [{"id": H("a"), "addr": H("10.0.0.1:7000")}],
                "ops": [{"op": "upsert", "n": 0, "k": H("k"), "v": H("1")}, {"op": "race_compact", "n": 0, "i": it},
                        {"op": "upsert", "n": 0, "k": H("k"), "v": H("2")}]}
-              for i, it in enumerate([3000, 20000] if ctx["tier"] == "quick" else [3000, 20000, 50000, 100000])]
+              for i, it in enumerate([3000, 12000] if ctx["tier"] == "quick" else [3000, 8000, 12000, 16000])]
     couts = run_world(binary, ctx["wd"], ccases, tag="conc")
     for c, o in zip(ccases, couts):
         f = {"step": 0, "why": "panic/timeout: " + o["panic"], "sig": "panic"} if o.get("panic") else monitor(c, o)
